@@ -54,6 +54,8 @@ pub struct Profile {
     pub whale: u64,
     /// outputs whose datum length is swept so that min-ADA lands on a coin-width boundary
     pub boundary_outputs: u64,
+    /// max_value_size drawn finely (150..450) so that some change bundle ends within a few bytes of it
+    pub fine_value_limit: u64,
 }
 
 impl Profile {
@@ -94,6 +96,7 @@ impl Profile {
             alt_datums: 300,
             whale: 60,
             boundary_outputs: 0,
+            fine_value_limit: 0,
         }
     }
 }
@@ -121,6 +124,9 @@ impl<'p> Gen<'p> {
         let mut r = Rng::stream(seed, 1);
         let vary = pm(&mut r, p.vary_knobs);
         let mut k = sess::gen_knobs(&mut r, vary);
+        if pm(&mut r, p.fine_value_limit) {
+            k.max_value_size = 150 + r.below(300) as u32;
+        }
         // sessions with Plutus need prices
         if k.ex_prices.is_none() {
             k.ex_prices = Some((577, 10000, 721, 10000000));
@@ -1031,7 +1037,12 @@ pub fn declared_keys(sc: &Scenario, h: &History, upto_op: usize, required_script
         }
         // mint-and-output is two steps inside the library: when the output half is refused the
         // mint half has already been applied (F4); the script counts whenever the transaction requires it
-        let half_applied = matches!(op, Op::MintAndOut { .. }) && matches!(h.results.get(i), Some(crate::exec::Res::Err(_)));
+        let half_applied = matches!(op, Op::MintAndOut { .. })
+            && match h.results.get(i) {
+                // refused by add_output (after the mint half went in), not by the mint builder
+                Some(crate::exec::Res::Err(e)) => e.contains("minimum UTXO value") || e.contains("Maximum value size"),
+                _ => false,
+            };
         if !half_applied && !h.results.get(i).map_or(false, |r| r.is_ok()) {
             continue;
         }
@@ -1052,6 +1063,10 @@ pub fn declared_keys(sc: &Scenario, h: &History, upto_op: usize, required_script
             }
             // a key declared on the inputs builder is a promise that it will sign
             Op::InReqSigner(k) => extra.push(key(*k).hash_bytes.to_vec()),
+            Op::MintAndOut { script, .. } if !seen_mint.insert(*script) => {
+                // the policy already has a script source from an earlier call: that one counts
+                let _ = script;
+            }
             Op::MintAndOut { script, .. } => visit(&Wit { script: *script, how: ScriptUse::Witness, datum: DatumUse::None, red: 0, mem: 0, steps: 0, signers: None }),
             _ => {}
         }
